@@ -57,7 +57,7 @@ CHECKS = {
         category="exploration",
         text="Seeded deterministic simulation (engine E1) of a real event-loop node with a reliable reader, a best-effort reader and a reliable writer in the middle of ordinary traffic with well-behaved scripted peers. A hostile peer, matched as a writer of both readers and as a reader of the writer (worst case) or unmatched, injects at seed-chosen points datagrams that are random bytes, random submessages, or DATA / DATAFRAG / HEARTBEAT / GAP / HEARTBEAT_FRAG / ACKNACK / NACKFRAG / INFO_* whose sequence numbers, counts, bitmap sizes, fragment numbers and sizes, sample sizes and parameter lengths are drawn from {0, 1, -1, current +- k, 2^31, 2^32, 2^62, max, min}, inconsistent combinations (fragment size changing within a sample, fragments beyond the sample size, number sets wider than 256), byte flips, truncation and trailing junk, up to 40 submessages per datagram. Every call into the node is metered: thread CPU time <= 0.3 s and allocator requests <= 4 MiB + 64 x datagram size (largest single request 4 MiB); a panic in any thread, an abort (allocations above 2 GiB are refused deterministically) or a hang (wall-clock watchdog, 5 s) ends the run with its decision list. At the end the well-behaved writers' samples were handed over complete, in order and byte-exact, and the local writer still serves an honest reader's request with the written bytes.",
         design_ref="DESIGN.md section 5 C06, section 12",
-        note="The hostile peer never uses a well-behaved peer's GUID. Built with overflow checks and debug assertions (arithmetic overflow on a wire value is a panic). Discovery payloads (PL_CDR parameter lists handled by the Discovery thread) and the DataReader-level deserialisation are outside this scenario (C09 covers the latter). Found and fixed: 9ebfe5a (fragment reassembly trusted claimed sizes: gigabyte allocations, overflow panics), a89ad76 (unbounded iteration/collection over HEARTBEAT/GAP ranges, overflow near the numeric limits, locator list allocated by wire count).",
+        note="The hostile peer never uses a well-behaved peer's GUID. Built with overflow checks and debug assertions (arithmetic overflow on a wire value is a panic). One run in 40 is the discovery variant on engine E2: a whole participant is sent SPDP / SEDP / participant-message DATA whose PL_CDR parameter lists lie about parameter, string and list lengths, are truncated, overwritten, carry unknown and duplicated parameters or lack the sentinel, in both byte orders, by a participant it knows; a panic in any of its threads, a hang or an abort ends the run, and a well-behaved participant that appears in the middle must still be discovered and its writer matched (no CPU/allocation meters in this variant). The DataReader-level deserialisation of user payloads is C09's subject. Found and fixed: 9ebfe5a (fragment reassembly trusted claimed sizes: gigabyte allocations, overflow panics), a89ad76 (unbounded iteration/collection over HEARTBEAT/GAP ranges, overflow near the numeric limits, locator list allocated by wire count).",
         technique=TECH + "; hostile-datagram injection with per-call CPU and allocation meters, panic/abort/hang capture, and an end-to-end oracle for the well-behaved traffic",
     ),
     "C07": dict(
